@@ -2,8 +2,8 @@
 // lemmas/instantiate_data_domain_sat.rs -- SATISFIABILITY WITNESSES of the preconditions of units `data_domain` (imported here) and
 // `instantiate_data_domain` (nothing here is trusted).
 //   (c)  dd_merge_hyp / dd_refine_hyp / dd_hints_hyp / dd_intersect_hyp are PROVED by the unit's own lemmas at T = InstDdToy
-//        (lemma_inst_dd_toy_hyps, all four) and at T = IntervalDomain (lemma_inst_dd_{merge,refine,intersect}_hyp; dd_hints_hyp is NOT
-//        provable there: finding M1 of the unit).  Added: InstDdSatH, a toy with a NON-TRIVIAL gamma (singletons) and a
+//        (lemma_inst_dd_toy_hyps, all four) and at T = IntervalDomain (lemma_inst_dd_{merge,refine,intersect,hints}_hyp: ALL FOUR since
+//        finding M1 of the unit was repaired in unit interval_domain).  Added: InstDdSatH, a toy with a NON-TRIVIAL gamma (singletons) and a
 //        without_widening_hints that is not the identity, with lemma_sat_instantiate_data_domain_h_hyps proving all four.
 //   (a') exec clients whose ONLY `requires` is dd_id_ok() (= vstd's uninterpreted obeys_cmp::<AbstractIdentifier>(), form (d)) and that take
 //        two values of the OPAQUE type AbstractIdentifier as parameters (external_body, no constructor: "some identifier exists" is outside
@@ -12,7 +12,9 @@
 //        the build: its precondition text is asserted on the same values) at T = InstDdToy, T = InstDdSatH and T = IntervalDomain
 //        (8-bit values: the constant 5 and the interval [0, 10]), the 12 witnesses inst_iv_*_w, the restated trait methods at the three
 //        instances, and the unit's clients verif_inst_data_*.  Verus checks the REAL `requires` at every call.
-//   NOT witnessed at T = IntervalDomain: without_widening_hints (M1) and the mixed targets/absolute case of intersect (M3): see the report.
+//   Since the repairs of M1 / M3 in unit interval_domain ALSO witnessed at T = IntervalDomain: without_widening_hints and the mixed
+//   targets/absolute case of intersect (both optional merges executed), at 8-bit values; for 5..8-byte values the merge_span side
+//   condition on the intermediate values of intersect stays a side condition (no witness above 32 bit for that case).
 // ---------------------------------------------------------------------------
 
 // =====================================================================================================================
@@ -289,7 +291,7 @@ pub fn verif_sat_instantiate_data_domain_iv_pair(id1: &AbstractIdentifier, id2: 
     (a, b)
 }
 
-/// the contracted functions of unit data_domain at T = IntervalDomain (all but without_widening_hints: M1) and the unit's clients
+/// the contracted functions of unit data_domain at T = IntervalDomain (ALL of them) and the unit's clients
 /// verif_inst_data_*; relative to (d) dd_id_ok
 pub fn verif_sat_instantiate_data_domain_iv_dd(id1: AbstractIdentifier, id2: AbstractIdentifier)
     requires dd_id_ok(),
@@ -345,4 +347,17 @@ pub fn verif_sat_instantiate_data_domain_iv_dd(id1: AbstractIdentifier, id2: Abs
         absolute_value: Some(verif_sat_instantiate_data_domain_iv(false)), contains_top_values: false };
     proof { assert(p.relative_values@.len() == 0 && q.relative_values@.len() == 0); }
     let _ = verif_inst_data_intersect_abs(p, &q);
+    // THE MIXED CASE (findings M1 / M3 repaired): a and b both have targets AND an absolute part, so `intersect` performs BOTH optional
+    // merges (of the intersected absolute part with b's, then of that merge with a's): dd_isect_pre incl. conjuncts 3 / 4 holds at these values
+    proof {
+        lemma_inst_dd_hints_hyp();
+        lemma_inst_dd_isect_pre_small(a, b, 8);
+        lemma_dd_len0(a.relative_values@); lemma_dd_len0(b.relative_values@);
+        assert(a.relative_values@.len() != 0 && b.relative_values@.len() != 0 && a.absolute_value is Some && b.absolute_value is Some);
+    }
+    let y = a.clone().intersect(&b);
+    let _ = verif_inst_data_intersect_small(a.clone(), &b, Ghost(8));
+    // without_widening_hints at T = IntervalDomain + its client
+    let h = a.clone().without_widening_hints();
+    let _ = verif_inst_data_unhint(a.clone());
 }
